@@ -291,9 +291,8 @@ theorem handleRequest_cache (c : Core) (env : Env) (src : Addr) (ro : Bool) (ver
       · split <;> exact ⟨rfl, rfl⟩
       · exact ⟨rfl, rfl⟩
     · exact ⟨rfl, rfl⟩
-  unfold handleRequest
+  unfold handleRequest serveRequest
   obtain ⟨a1, a2⟩ := h2 (maybeAddNodeFromRequest c src version ro req env.now)
-  simp only
   split
   · exact ⟨a1.trans h1.1, a2.trans h1.2⟩
   · exact ⟨a1.trans h1.1, a2.trans h1.2⟩
